@@ -36,13 +36,14 @@ type c20Plan struct {
 	Adapt014 bool  `json:"adapt_014"` // strip self-confirmations and PubPolyBz (a v0.1.4 log), then GetAdaptedReDKG
 	Proposer int   `json:"proposer"`  // which new node posts the reinit message
 	Recorded bool  `json:"recorded"`  // use the recorded client/test_data/0_1_4_log.csv instead of a generated ceremony
+	Prior    bool  `json:"prior"`     // the original machines completed another round before the one that is re-initialised
 }
 
 func c20Gen(rt *rapid.T) c20Plan {
 	nt := rapid.SampledFrom([][2]int{{2, 2}, {3, 2}, {3, 3}, {4, 2}, {4, 3}}).Draw(rt, "nt")
 	return c20Plan{N: nt[0], T: nt[1], Tape: rapid.SliceOfN(rapid.IntRange(0, 1000), 0, 60).Draw(rt, "tape"),
 		Batches: rapid.IntRange(0, 2).Draw(rt, "batches"), Junk: rapid.IntRange(0, 3).Draw(rt, "junk"),
-		Adapt014: rapid.Bool().Draw(rt, "adapt"), Proposer: rapid.IntRange(0, nt[0]-1).Draw(rt, "proposer")}
+		Adapt014: rapid.Bool().Draw(rt, "adapt"), Proposer: rapid.IntRange(0, nt[0]-1).Draw(rt, "proposer"), Prior: rapid.IntRange(0, 2).Draw(rt, "prior") == 0}
 }
 
 type c20Orig struct {
@@ -86,6 +87,17 @@ func c20Original(p c20Plan, root string) (o c20Orig) {
 	}
 	defer w.Close()
 	o.Names = w.Names
+	if p.Prior {
+		if _, err := w.StartDKG(p.N-1, 2, nil); err == nil {
+			err = w.Quiesce(100)
+		}
+		if err != nil {
+			o.Err = fmt.Errorf("earlier round: %w", err)
+			return
+		}
+		time.Sleep(time.Hour)
+	}
+	priorLen := w.Board.Len()
 	round, err := w.StartDKG(0, p.T, nil)
 	if err != nil {
 		o.Err = err
@@ -158,7 +170,10 @@ func c20Original(p c20Plan, root string) (o c20Orig) {
 			return
 		}
 	}
-	o.Log = w.Board.All()
+	o.Log = w.Board.From(priorLen) // the dump handed to the reinitialiser starts at the round's proposal
+	for i := range o.Log {
+		o.Log[i].Offset = uint64(i)
+	}
 	d, err := w.Dump(0, round)
 	if err != nil {
 		o.Err = err
